@@ -237,7 +237,23 @@ func ruleCoreRecover() check.Rule {
 					c.Undecided(key, fd.Pos(), "call of the subscribe field not found")
 				default:
 					inTry, _ := position(fd, subscribeCall)
-					if inTry && handlerEmits && handlerUnsubs && unsubPos < emitPos {
+					// the registration of the returned teardown (Add runs it at once on a closed subscription) is protected too
+					addOutside := token.NoPos
+					ast.Inspect(fd.Body, func(n ast.Node) bool {
+						call, ok := n.(*ast.CallExpr)
+						if !ok {
+							return true
+						}
+						if name, isSub := m.Obj.SubscriptionMethods[model.Callee(info, call)]; isSub && (name == "Add" || name == "AddUnsubscribable") {
+							if in, inCatch := position(fd, call); !in && !inCatch {
+								addOutside = call.Pos()
+							}
+						}
+						return true
+					})
+					if inTry && handlerEmits && handlerUnsubs && addOutside != token.NoPos {
+						c.Violation(key, addOutside, "the teardown returned by the subscribe function is registered outside the try: on a subscription that has already terminated Add runs the teardown at once, and a panic of that teardown escapes from Subscribe into the caller's goroutine")
+					} else if inTry && handlerEmits && handlerUnsubs && unsubPos < emitPos {
 						c.Violation(key, subscribeCall.Pos(), "the recover handler unsubscribes before it sends the Error notification: the subscriber is closed by then, so the panic of the subscribe function is silently dropped instead of reaching the observer")
 					} else if inTry && handlerEmits && handlerUnsubs {
 						c.OK(key, subscribeCall.Pos(), "subscribe function runs inside TryCatch; the handler emits ErrorWithContext and unsubscribes")
@@ -774,7 +790,7 @@ func C07() *check.Property {
 		Title:    "Errors and panics surface once as an Error notification, never as a crash",
 		Patterns: cat(CorePatterns, PluginPkgs, []string{PromPkg}, RatePkgs),
 		Scope:    []string{ro},
-		Rules:    []check.Rule{ruleUserFnContext(), ruleGoRecover(), ruleCoreRecover(), ruleErrResultUsed(), ruleUnwrap(), ruleLockPairing(), rulePanicSafeUnlock(), ruleErrorKind(), ruleLockRegion(), ruleNilGuardPolarity()},
+		Rules:    []check.Rule{ruleUserFnContext(), ruleGoRecover(), ruleCoreRecover(), ruleErrResultUsed(), ruleUnwrap(), ruleLockPairing(), rulePanicSafeUnlock(), ruleErrorKind(), ruleLockRegion(), ruleNilGuardPolarity(), ruleSlotGuardAgreement()},
 		Explanation: "Static effect/placement check. User code can run in four kinds of places; the rules prove where each call of a user-supplied function sits (from the model's emission contexts) and that the recover points exist: " +
 			"the subscribe function runs inside a try whose handler emits Error and unsubscribes (CORE-RECOVER), observer callbacks run inside the try* helpers, library goroutines go through the recover wrapper or contain no user call (GO-RECOVER), " +
 			"user functions are only called in the subscribe body, a next slot or a teardown (USER-FN-CONTEXT), errors returned by callees become Error notifications without falling through (ERR-RESULT-USED), error wrappers unwrap (UNWRAP) and no function leaves a lock held on a normal exit (LOCK-PAIRING).",
